@@ -309,7 +309,7 @@ for _p, _t in [("empty", Q), ("0", Q), ("00", Q), ("01", Q), ("000", T), ("001",
     _c19h.append(H(f"c19_delegates_{_p}", "ext_radicle", "c19", "ext_radicle_c19", tiers=_t, covers=1, functions=_F19, stubs=[], timeout={"quick": 900, "thorough": 3000},
         bounds=f"delegate list with equality pattern [{_p}] over 3 concrete keys (entry i = key pattern[i]); threshold: every usize value"))
 _F19R = ["radicle::identity::doc::RawDoc::verified", "radicle::identity::doc::Delegates::new", "radicle::identity::doc::Threshold::new", "radicle::identity::doc::Doc::{threshold,delegates}"]
-for _p, _t in [("empty", Q), ("0", Q), ("00", Q), ("01", Q), ("001", Q), ("010", Q), ("012", Q), ("0120", T), ("0011", T)]:
+for _p, _t in [("empty", Q), ("0", Q), ("00", Q), ("01", Q), ("001", Q), ("010", Q), ("012", Q), ("0120", T), ("0011", T), ("000", T), ("011", T), ("0101", T), ("0112", T)]:
     _c19h.append(H(f"c19_rawdoc_{_p}", "ext_radicle", "c19", "ext_radicle_c19", tiers=_t, covers=1, functions=_F19R, stubs=[], timeout={"quick": 900, "thorough": 3000},
         bounds=f"RawDoc::verified (the funnel of TryFrom<RawDoc> for Doc) on a raw document built by the cfg(kani) hook RawDoc::verif_raw: delegate list with equality pattern [{_p}] over 3 concrete keys, threshold: every usize value; accepted iff non-empty and 1 <= threshold <= #distinct delegates, result has distinct delegates and that threshold"))
 PROPERTIES["C19"] = {
